@@ -586,7 +586,7 @@ func toGoHelper(env *Zlisp, name string, arg Sexp) (Sexp, error) {
 	case *SexpReflect:
 		return SexpNull, fmt.Errorf("ToGoFunction (togo) error: value must be a hash or defmap; we see SexpReflect '%[1]T'", asHash.Val.Interface())
 	default:
-		return SexpNull, fmt.Errorf("ToGoFunction (togo) error: value must be a hash or defmap; we see '%[1]T'/val=%#[1]v", arg)
+		return SexpNull, fmt.Errorf("ToGoFunction (togo) error: value must be a hash or defmap; we see '%T'/val=%s", arg, arg.SexpString(nil))
 	case *SexpHash:
 		tn := asHash.TypeName
 		//vv("ToGo: SexpHash for tn='%s', shadowSet='%v'", tn, asHash.ShadowSet)
@@ -994,7 +994,11 @@ func SexpToGoStructs(
 				}
 				//vv("have reflect.Map: target has type = '%T', value='%#v'; targTyp='%v' targKind='%v' targElemTyp='%v' targElemKind='%v' mapElemTyp='%v' mapElemKind='%v' mapKeyTyp='%v' mapKeyKind='%v'", target, target, targTyp, targKind, targElemTyp, targElemKind, mapElemTyp, mapElemKind, mapKeyTyp, mapKeyKind)
 			}
-			panic(fmt.Sprintf("not done here yet, target has type = '%T', value='%#v'; targTyp='%v' targKind='%v' targElemTyp='%v' targElemKind='%v'", target, target, targTyp, targKind, targElemTyp, targElemKind))
+			value := fmt.Sprintf("%T", target)
+			if sx, isSexp := target.(Sexp); isSexp {
+				value = sx.SexpString(nil)
+			}
+			panic(fmt.Sprintf("not done here yet, target has type = '%T', value='%s'; targTyp='%v' targKind='%v' targElemTyp='%v' targElemKind='%v'", target, value, targTyp, targKind, targElemTyp, targElemKind))
 
 			// TODO: don't try to translate into a Go struct,
 			// but instead... what? just a map[string]interface{}
@@ -1113,8 +1117,8 @@ func SexpToGoStructs(
 				case *SexpSymbol:
 					recordKey = k.name
 				default:
-					fmt.Printf(" skipping field '%#v' which we don't know how to lookup.", pair.Head)
-					panic(fmt.Sprintf("unknown fields disallowed: we didn't recognize '%#v'", pair.Head))
+					fmt.Printf(" skipping field '%s' which we don't know how to lookup.", pair.Head.SexpString(nil))
+					panic(fmt.Sprintf("unknown fields disallowed: we didn't recognize '%s'", pair.Head.SexpString(nil)))
 					continue
 				}
 				// We've got to match pair.Head to
@@ -1133,7 +1137,7 @@ func SexpToGoStructs(
 					//vv("upperKey = '%v' from recordKey = '%v'; found=%v; det='%#v'", upperKey, recordKey, found, det)
 					if !found {
 						fmt.Printf(" skipping field '%s' in this hash/which we could not find in the JsonTagMap", recordKey)
-						panic(fmt.Sprintf("unknown field '%s' not allowed; could not find in the JsonTagMap. Fieldnames are case sensitive. src.JstonTagMap: '%#v'", recordKey, src.JsonTagMap))
+						panic(fmt.Sprintf("unknown field '%s' not allowed; could not find in the JsonTagMap. Fieldnames are case sensitive. The known field names are: %v", recordKey, src.jsonTagNames()))
 						continue
 					}
 				}
@@ -1443,4 +1447,14 @@ func (hash *SexpHash) bucketsInKeyOrder() [][]*SexpPair {
 		res = append(res, []*SexpPair{{Head: key, Tail: val}})
 	}
 	return res
+}
+
+// jsonTagNames lists the field names of the JsonTagMap in sorted order.
+func (hash *SexpHash) jsonTagNames() []string {
+	names := make([]string, 0, len(hash.JsonTagMap))
+	for name := range hash.JsonTagMap {
+		names = append(names, name)
+	}
+	sort.Strings(names)
+	return names
 }
